@@ -17,6 +17,40 @@ CHECKS = {
     ),
 }
 
+_HIST_NOTE = ("virtual clock replaces wall time; in-memory streams replace the loopback TCP hop; external MH agent = stdlib mailbox.MH + os.utime bump; "
+              "Mailbox.FOLDER_SIZE_PACK_LIMIT lowered in some shards; the reference model is outcome-driven where RFC 3501 leaves the server a choice")
+
+
+def _hist(pid, technique, text):
+    CHECKS[pid] = dict(category="exploration", technique=technique, text=text + " Held means: on the histories listed in the evidence file.",
+                       note=_HIST_NOTE, design=f"DESIGN.md section 4 {pid}")
+
+
+_hist("C01", "runtime monitor: per-session view replayer over the recorded byte stream + flush comparison with the server's message list",
+      "Exploration: forced skeletons and seeded random multi-session histories on the real server in process; every response a session receives is replayed "
+      "into its view (EXISTS never shrinks, EXPUNGE/FETCH name existing positions, no EXPUNGE during non-UID FETCH/STORE/SEARCH, UIDs per cell stable and ascending) "
+      "and at every NOOP/CHECK/IDLE flush the view must equal the server's message list.")
+_hist("C02", "runtime monitor: write-once (mailbox, UIDVALIDITY, UID)->message ledger and UIDNEXT/UIDVALIDITY monotonicity over recorded histories",
+      "Exploration: histories with expunge, copy/move-in, pack (lowered threshold), rename, delete/re-create, deliveries and orderly restarts; after every step an "
+      "observer re-reads all mailboxes and the ledger rules (ascending, never reused, UIDNEXT above all and non-decreasing, APPENDUID/COPYUID honest, UIDVALIDITY "
+      "constant or larger after re-creation) are evaluated.")
+_hist("C03", "runtime monitor: UID->(content digest, INTERNALDATE) ledger re-checked after every step; seq-form vs UID-form differential",
+      "Exploration: histories biased to expunging arbitrary subsets, packing, deliveries, rename and restart; every live message is re-fetched by UID after every "
+      "step (BODY.PEEK[] digest + INTERNALDATE) and FETCH 1:* / UID FETCH 1:* triples are compared.")
+_hist("C04", "runtime monitor: reference flag model vs own FETCH data, other sessions' notifications, observer FETCH/SEARCH probes and on-disk .mh_sequences",
+      "Exploration: STORE/FETCH/APPEND/COPY/SEARCH sequences over 1-3 sessions with system flags in mixed case and keyword atoms; all 64 initial flag sets of a message "
+      "enumerated; known findings (unseen keyword exposure, MH-sequence-name aliasing) are classified by mechanism.")
+_hist("C05", "runtime monitor: conservation over unique content identities (observer snapshot after every command vs model prediction)",
+      "Exploration: EXPUNGE/UID EXPUNGE/CLOSE/COPY/MOVE/APPEND with arbitrary \\Deleted subsets, partly non-existent UID sets, same-mailbox/missing destinations, EXAMINE "
+      "sessions; after every command the observer's view of every mailbox must equal the model's exact prediction; refused commands and EXAMINE sessions change nothing.")
+_hist("C12", "runtime monitor: full client-visible observation before shutdown() compared with the one after restart",
+      "Exploration: histories reaching sparse UID lists, packed folders, keyword flags, \\Noselect placeholders, renamed trees and subscriptions with orderly restarts "
+      "at random steps and, in one skeleton, after every step; LIST, LSUB, STATUS and UID FETCH (UID FLAGS) must be equal modulo \\Recent and re-created SPECIAL-USE mailboxes.")
+_hist("C13", "runtime monitor: delivery announcements in the recorded streams + .mh_sequences read as an MH tool would after every command",
+      "Exploration: alternations of external MH deliveries (stdlib mailbox.MH agent) with IMAP commands from selected, idling and unselected sessions; deliveries must "
+      "be announced with fresh larger UIDs, \\Recent and the agent's flags; .mh_sequences must list no removed message and agree with the flags sessions see, including "
+      "the number-reuse scenario.")
+
 PENDING = "check under construction in this round; not yet validated against the unchanged tree and seeded changes"
 
 ALL = ["C%02d" % i for i in range(1, 21)]
